@@ -136,13 +136,13 @@ example : Spec.vhost [⟨["a.cc".toList], []⟩] (some "b.cc".toList) = -1 := by
 
 /-- a route list mixing kinds: the prefix rule with a method matcher shadows the later catch-all only for GET -/
 def exRoutes : List MatchCfg :=
-  [ ⟨"/a".toList, [], none, [], [⟨"method".toList, "GET".toList, false, ⟨0, false⟩⟩]⟩,
-    ⟨[], [], some ⟨1, true⟩, [], []⟩,
-    ⟨[], [], none, [], []⟩ ]
+  [ ⟨"/a".toList, [], none, [], [⟨"method".toList, "GET".toList, false, ⟨0, false⟩⟩], []⟩,
+    ⟨[], [], some ⟨1, true⟩, [], [], []⟩,
+    ⟨[], [], none, [], [], []⟩ ]
 
 def exReq (method path : String) : Req :=
   { var := fun k => if k = "x-mosn-method".toList then some method.toList else if k = "x-mosn-path".toList then some path.toList else none,
-    hdr := fun _ => none }
+    hdr := fun _ => none, dsl := fun _ => none }
 
 example : ∃ rules, mkRules exRoutes = .ok rules := ⟨_, rfl⟩
 example : Spec.route (fun _ _ => false) (exReq "GET" "/a/b") exRoutes = some 0 := by decide
